@@ -68,6 +68,22 @@ class Pool:
             self.files[name] = text
             self.gen[name] = t
             self.lists.append((name, "generated"))
+        # wide tables (every opcode family; multipass rules that set and test pass variables in both halves of the
+        # variable array; emphasis, grouping, swap ...): state left behind by one call shows in the next
+        from .. import gen_features as GF
+        self.wide = {}
+        for i in range(3 if tier == "quick" else 10):
+            w = GF.gen(rng, want={"multipass", "numsign", "caps", "uppercase", "swap", "grouping", "repeated", "emph"} if i % 2 == 0 else None)
+            name = "w%d.ctb" % i
+            self.files[name] = w.text
+            self.wide[name] = w
+            self.lists.append((name, "wide"))
+        # variables: a rule that sets a variable and a rule that tests it, for a low and a high index
+        self.files["var.ctb"] = ("space \\s 0\nlowercase a 1\nlowercase b 12\nlowercase c 14\nlowercase d 145\n"
+                                 "noback context \"b\" @12#1=1\nnoback context #1=1\"c\" @123456\n"
+                                 "noback context \"d\" @145#30=1\nnoback context #30=1\"a\" @23456\n"
+                                 "noback pass2 @12 @12#49=2\nnoback pass2 #49=2@14 @1456\n")
+        self.lists.append(("var.ctb", "var"))
         letters = [c for c in self.gen["g2.ctb"].chars() if c > 0x20][:6] or [0x61]
         pats = []
         for _ in range(12):
@@ -100,6 +116,11 @@ class Pool:
         name = lst.split(",")[0]
         if kind == "twin":
             outs = [[ord(c) for c in w] for w in ("zaaz", "ab z ba", "zzzz a")]
+        elif kind == "var":
+            outs = [[ord(c) for c in w] for w in ("ab", "ac", "ad", "a", "c", "cb", "dcab", "b")]
+        elif kind == "wide":
+            from .. import gen_features as GF
+            outs = [GF.text_for(rng, self.wide[name]) for _ in range(4)]
         elif name in self.gen:
             t = self.gen[name]
             for _ in range(3):
